@@ -855,9 +855,11 @@ func TestC15(t *testing.T) {
 		{Key: "misc_feature", Loc: lrg(16, 34), Quals: [][]string{{"label", "f2"}, {"gene", "b"}}},
 		{Key: "gene", Loc: lco(lrg(30, 48)), Quals: [][]string{{"label", "f3"}, {"gene", "b"}}},
 		{Key: "CDS", Loc: lco(lrg(30, 48)), Quals: [][]string{{"label", "f4"}, {"gene", "b"}}},
+		{Key: "gene", Loc: lrg(40, 56), Quals: [][]string{{"label", "f5"}, {"gene", "c"}}},
+		{Key: "misc_feature", Loc: lco(lrg(0, 9)), Quals: [][]string{{"label", "f6"}, {"gene", "c"}}},
 	}
 	for _, cmd := range []string{"delete", "insert", "infix", "split", "rotate", "extract"} {
-		for _, loc := range []string{"gene", "CDS", "/gene=b", "/gene=a", "misc_feature", "10", "10..20", "complement(10..20)", "gene@^", "gene@$", "CDS@^..^+1", "tRNA", "@^", "/label=f[34]", "/label=f[34]@^"} {
+		for _, loc := range []string{"/gene=c", "/gene=[bc]", "/label=f[05]", "/label=f[26]", "gene", "CDS", "/gene=b", "/gene=a", "misc_feature", "10", "10..20", "complement(10..20)", "gene@^", "gene@$", "CDS@^..^+1", "tRNA", "@^", "/label=f[34]", "/label=f[34]@^"} {
 			for _, circ := range []bool{false, true} {
 				for _, flag := range []bool{false, true} {
 					if flag && (cmd == "split" || cmd == "rotate") {
